@@ -1846,6 +1846,12 @@ func (p *context) currentFunctionSyntax() ast.Node {
 		return nil
 	}
 	fn := p.goFn
+	// A closure sees the local types of its enclosing functions: use the
+	// outermost (declared) function, so that a local type gets the same
+	// patched name inside the function body and inside its closures.
+	for fn.Parent() != nil {
+		fn = fn.Parent()
+	}
 	if origin := fn.Origin(); origin != nil {
 		fn = origin
 	}
